@@ -69,19 +69,7 @@ def assume_spec(it, v, name=""):
             raise Infeasible()
         return
     if isinstance(v, ForallV):
-        qvars, ranges = [], []
-        cur = v
-        while isinstance(cur, ForallV):
-            q = fresh("q", z3.IntSort())
-            qvars.append(q)
-            ranges.append(to_z3num(cur.n))
-            b = cur.body(q)
-            cur = b if isinstance(b, (ForallV, bool)) else it.truth(b)
-        if isinstance(cur, bool):
-            cur = z3.BoolVal(cur)
-        if not is_z3(cur):
-            raise Unsupported("body of a quantified assumption is %r" % (cur,))
-        it.qfacts.append(QFact(qvars, ranges, cur, name))
+        it.add_forall(v, name)
         return
     if isinstance(v, tuple) and v and v[0] == "and":
         for p in v[1]:
@@ -108,8 +96,12 @@ def goal_of(it, v):
         k = fresh("sk", z3.IntSort())
         it.register_index(k)
         pre = [0 <= k, k < to_z3num(v.n)]
-        b = v.body(k)
-        sub_pre, g = goal_of(it, it.truth(b) if not isinstance(b, (ForallV, ExistsV, bool)) else b)
+        it.pc += pre  # the body is evaluated for an element in range (dispatch feasibility uses it)
+        try:
+            b = v.body(k)
+            sub_pre, g = goal_of(it, it.truth(b) if not isinstance(b, (ForallV, ExistsV, bool)) else b)
+        finally:
+            del it.pc[-len(pre):]
         return pre + sub_pre, g
     if isinstance(v, tuple) and v and v[0] == "and":
         pre, g = goal_of(it, v[2])
@@ -270,6 +262,12 @@ def verify_function(qualname, contract, schema, timeout_ms=10000, contracts=None
         path_no[0] += 1
         pid = "p%d" % path_no[0]
         it.oblig_prefix = ""
+        try:
+            return finish(it, out, pid, old_heap, old_env)
+        except Infeasible:
+            raise CheckerError("path %s of %s became infeasible while its contract clauses were evaluated" % (pid, qualname))
+
+    def finish(it, out, pid, old_heap, old_env):
         # ---- postconditions
         it.spec_mode = True
         it.definedness = False
@@ -393,8 +391,18 @@ def lemma_facts(assumptions, goal, index_terms, qfacts, timeout_ms, rep=None):
     for atom, j, args, term in apps:
         key = (atom.key, tuple(a.get_id() for a in args))
         groups.setdefault(key, (atom, args, []))[2].append(j)
-    hyps_base = list(assumptions)
-    base_ids = frozenset(h.get_id() for h in hyps_base)
+    # one generic index per obligation: its instances of the quantified assumptions are valid facts and are added once
+    k = fresh("lk", z3.IntSort())
+    kinst = []
+    for q in qfacts:
+        import itertools
+
+        terms = list(index_terms) + [k]
+        for ks in itertools.product(terms, repeat=len(q.qvars)):
+            if any(x is k for x in ks):
+                kinst.append(q.instance(*ks))
+    hyps_base = _BaseSolver(list(assumptions) + kinst, timeout_ms)
+    base_ids = frozenset(h.get_id() for h in assumptions)
     for (akey, argids), (atom, args, js) in groups.items():
         args = list(args)
         facts.append(atom.app(0, args) == 0)
@@ -414,8 +422,7 @@ def lemma_facts(assumptions, goal, index_terms, qfacts, timeout_ms, rep=None):
             cj = concrete_int(j)
             if cj is not None and cj <= 0:
                 continue
-            k = fresh("lk", z3.IntSort())
-            inst = [f for q in qfacts for f in q.instances(list(index_terms) + [k])]
+            inst = []
             rng = [0 <= k, k < j, atom.guard_at(k, args)]
             t = atom.term_at(k, args)
             if _valid(hyps_base + inst + rng, t >= 0, timeout_ms, rep, key=(akey, argids, j.get_id(), 'ge0', base_ids)):
@@ -446,8 +453,7 @@ def lemma_facts(assumptions, goal, index_terms, qfacts, timeout_ms, rep=None):
                     cj = concrete_int(j)
                     if cj is not None and cj <= 0:
                         continue
-                    k = fresh("lk", z3.IntSort())
-                    inst = [f for q in qfacts for f in q.instances(list(index_terms) + [k])]
+                    inst = []
                     rng = [0 <= k, k < j]
                     s1, s2 = a1.summand(k, list(args1)), a2.summand(k, list(args2))
                     pk = (a1.key, a2.key, tuple(x.get_id() for x in args1), tuple(x.get_id() for x in args2), j.get_id())
@@ -464,8 +470,56 @@ def lemma_facts(assumptions, goal, index_terms, qfacts, timeout_ms, rep=None):
 _side_cache = {}
 
 
+class _BaseSolver:
+    """incremental solver holding the assumptions of one obligation; side proofs push/pop on it"""
+
+    def __init__(self, base, timeout_ms):
+        self.base = base
+        self.extra = []
+        self.solver = None
+        self.timeout_ms = timeout_ms
+
+    def __add__(self, other):
+        b = _BaseSolver(self.base, self.timeout_ms)
+        b.solver = self.solver
+        b.owner = getattr(self, "owner", self)
+        b.extra = self.extra + list(other)
+        return b
+
+    def check_valid(self, goal):
+        owner = getattr(self, "owner", self)
+        if owner.solver is None:
+            owner.solver = _solver(min(owner.timeout_ms, 5000))
+            owner.solver.add(*owner.base)
+            owner.solver.add(*core.list_axiom_instances(owner.base))
+        s = owner.solver
+        s.push()
+        try:
+            s.add(*self.extra)
+            s.add(z3.Not(goal))
+            s.add(*core.list_axiom_instances(self.extra + [goal]))
+            return s.check() == z3.unsat
+        finally:
+            s.pop()
+
+
 def _valid(hyps, goal, timeout_ms, rep=None, key=None):
     """side proof; results are cached per claim: a claim valid under a set of hypotheses is valid under any superset"""
+    if isinstance(hyps, _BaseSolver):
+        ids = None
+        if key is not None:
+            ids = key[-1]
+            for prev_ids, res in _side_cache.get(key[:-1], []):
+                if res and prev_ids <= ids:
+                    return True
+                if not res and prev_ids == ids:
+                    return False
+        if rep is not None:
+            rep.lemma_side_proofs += 1
+        res = hyps.check_valid(goal)
+        if key is not None:
+            _side_cache.setdefault(key[:-1], []).append((ids, res))
+        return res
     ids = None
     if key is not None:
         ids = key[-1]
@@ -506,6 +560,21 @@ def full_assumptions(ob, timeout_ms, rep=None):
 
 def discharge(ob, timeout_ms=10000, rep=None):
     t0 = time.time()
+    # stage 1: without sum-lemma instances (fewer assumptions: a proof here is a proof)
+    if ob.kind != "cover":
+        base = list(ob.assumptions)
+        for q in ob.qfacts:
+            base += q.instances(ob.index_terms)
+        base += core.str_distinct_facts()
+        s1 = _solver(min(timeout_ms, 3000))
+        s1.add(*base)
+        s1.add(z3.Not(ob.goal))
+        s1.add(*core.list_axiom_instances(base + [ob.goal]))
+        if s1.check() == z3.unsat:
+            ob.status = "proved"
+            ob.backend = "z3"
+            ob.seconds = time.time() - t0
+            return ob
     try:
         assumptions = full_assumptions(ob, timeout_ms, rep)
     except Exception as e:  # pragma: no cover
